@@ -10,15 +10,31 @@ from .models import make_interp
 from .values import (NONE, TRUE, FALSE, AbsList, BoolV, EnumV, Hole, ListV, Obj, Str, Unknown, Value)
 
 
-def absorb_consumed(I: Interp, cons: Obj, before: Dict[str, int]) -> None:
-    """turn every list field of the consumer that grew while consuming into a list of unknown length"""
+def _lists_of(cons: Obj, depth: int = 2, prefix: str = "", seen=None) -> Dict[str, ListV]:
+    """the concrete lists the consumer owns: its own list fields and those of the helper objects it holds (a stream or
+    buffer object the records were moved into)"""
+    seen = set() if seen is None else seen
+    out: Dict[str, ListV] = {}
+    if id(cons) in seen:
+        return out
+    seen.add(id(cons))
     for k, v in cons.fields.items():
-        if isinstance(v, ListV) and v.absorbed is None and len(v.items) > before.get(k, 0):
+        if isinstance(v, ListV) and v.absorbed is None:
+            out[prefix + k] = v
+        elif isinstance(v, Obj) and depth > 0 and v.cls.name not in ("MatchedObserver",):
+            out.update(_lists_of(v, depth - 1, prefix + k + ".", seen))
+    return out
+
+
+def absorb_consumed(I: Interp, cons: Obj, before: Dict[str, int]) -> None:
+    """turn every list the consumer owns that grew while consuming into a list of unknown length"""
+    for k, v in _lists_of(cons).items():
+        if len(v.items) > before.get(k, 0):
             v.absorbed = AbsList(v.items[-1], "consumed instructions", {})
 
 
 def list_sizes(cons: Obj) -> Dict[str, int]:
-    return {k: len(v.items) for k, v in cons.fields.items() if isinstance(v, ListV) and v.absorbed is None}
+    return {k: len(v.items) for k, v in _lists_of(cons).items()}
 
 
 class Scenario:
@@ -28,8 +44,7 @@ class Scenario:
     def regex_calls(self, I: Interp) -> List[Dict[str, Any]]:
         out = []
         for ev in self.path.events:
-            if ev.kind == "extern_call" and (ev.name.startswith("regex.") or ev.name.startswith("re.")) \
-                    and ev.func.startswith("CompleteConsumer"):
+            if ev.kind == "extern_call" and (ev.name.startswith("regex.") or ev.name.startswith("re.")):
                 out.append({"name": ev.name, "args": [I.expr_of(a) for a in ev.args],
                             "kwargs": {k: I.expr_of(v) for k, v in ev.kwargs.items()}, "func": ev.func})
         return out
